@@ -9,7 +9,9 @@ selects/parametrises the Coq model (Model.v / Exec.v / FloatModel.v):
 
     index      'floor' | 'cast'     how the quotient becomes a bin number      -> Model.radbin / Model.radbin_cast
     pad_deg    Fraction             margin added to the search cap of cbincount -> radius of the cover the harness asks for
-    epsilon    Fraction             gEpsilon of the inside tests                -> FloatModel.gEpsilon (re-checked in Coq)
+    epsilon    Fraction             gEpsilon of the inside tests                -> argument [eps] of FloatModel
+    save_depth int                  number of stored levels (saveDepth default)  -> argument [save] of FloatModel
+    gPi        Fraction             the literal of gPi                           -> degrees-to-radians factor of the harness' updateXYZ
 """
 import os
 import re
@@ -174,6 +176,59 @@ def id_by_point(index_src, general_src):
     return {"epsilon": _decimal(m[0], "gEpsilon")}
 
 
+def vector_ops(vec_src, edge_src, index_src, iface_h, iface_cpp, htmc_src, general_src):
+    """the arithmetic FloatModel.v transcribes: SpatialVector + ^ * normalize updateXYZ, the mid-points and the
+    child order of the stored levels, the number of stored levels, the constant gPr"""
+    v = squeeze(strip(vec_src))
+    for what, shape in [
+        ("updateXYZ", "SpatialVector::updateXYZ() { float64 cd = cos(dec_*gPr); x_ = cos(ra_*gPr) * cd; y_ = sin(ra_*gPr) * cd; z_ = sin(dec_*gPr); }"),
+        ("normalize", "SpatialVector::normalize() { float64 sum; sum = x_*x_ + y_*y_ + z_*z_; sum = sqrt(sum); x_ /= sum; y_ /= sum; z_ /= sum; }"),
+        ("dot", "SpatialVector::operator *(const SpatialVector & v) const { return (x_*v.x_)+(y_*v.y_)+(z_*v.z_); }"),
+        ("plus", "SpatialVector::operator +(const SpatialVector & v) const { return SpatialVector(x_+v.x_, y_+v.y_, z_+v.z_); }"),
+        ("cross", "SpatialVector::operator ^(const SpatialVector &v) const { return SpatialVector(y_ * v.z_ - v.y_ * z_, z_ * v.x_ - v.z_ * x_, x_ * v.y_ - v.x_ * y_); }"),
+        ("xyz constructor", "SpatialVector::SpatialVector(float64 x, float64 y, float64 z) : x_(x), y_(y), z_(z), okRaDec_(false) { }"),
+        ("radec constructor", "SpatialVector::SpatialVector(float64 ra, float64 dec) : ra_(ra), dec_(dec), okRaDec_(true) { updateXYZ(); updateRaDec(); }"),
+    ]:
+        _need(v, {what: shape}, "SpatialVector/" + what)
+    e = squeeze(strip(edge_src))
+    for what, shape in [
+        ("getMidPoint", "SpatialEdge::getMidPoint(Edge *em) { tree_.vertices_[index_] = tree_.vertices_[em->start_] + tree_.vertices_[em->end_]; "
+                        "tree_.vertices_[index_].normalize(); return index_++; }"),
+        ("edge 0", "case 0: em->start_ = IV(1); em->end_ = IV(2); break;"),
+        ("edge 1", "case 1: em->start_ = IV(0); em->end_ = IV(2); break;"),
+        ("edge 2", "case 2: em->start_ = IV(0); em->end_ = IV(1); break;"),
+        ("register", "IW(k) = getMidPoint(em);"),
+    ]:
+        _need(e, {what: shape}, "SpatialEdge/" + what)
+    ix = squeeze(strip(index_src))
+    for what, shape in [
+        ("vertices", "float64 v[6][3] = { {0.0L, 0.0L, 1.0L}, {1.0L, 0.0L, 0.0L}, {0.0L, 1.0L, 0.0L}, {-1.0L, 0.0L, 0.0L}, {0.0L, -1.0L, 0.0L}, {0.0L, 0.0L, -1.0L} };"),
+        ("roots", "index_ = 1; newNode(1,5,2,8,0); newNode(2,5,3,9,0); newNode(3,5,4,10,0); newNode(4,5,1,11,0); "
+                  "newNode(1,0,4,12,0); newNode(4,0,3,13,0); newNode(3,0,2,14,0); newNode(2,0,1,15,0);"),
+        ("children", "id = N(index).id_ << 2; ICHILD(0) = newNode(IV(0),IW(2),IW(1),id++,index); ICHILD(1) = newNode(IV(1),IW(0),IW(2),id++,index); "
+                     "ICHILD(2) = newNode(IV(2),IW(1),IW(0),id++,index); ICHILD(3) = newNode(IW(0),IW(1),IW(2),id,index);"),
+        ("buildlevel", "maxlevel_(maxlevel), buildlevel_( (buildlevel == 0 || buildlevel > maxlevel) ? maxlevel : buildlevel)"),
+        ("macro V", "#define V(x) vertices_.vector_[nodes_.vector_[index].v_[(x)]]"),
+    ]:
+        _need(ix, {what: shape}, "SpatialIndex/" + what)
+    ih = strip(iface_h)
+    m = re.findall(r"void init\(size_t depth = ([0-9]+), size_t saveDepth = ([0-9]+)\);", ih)
+    if len(m) != 1:
+        raise TranslateError("expected exactly one declaration `void init(size_t depth = N, size_t saveDepth = M);`")
+    save = int(m[0][1])
+    _need(squeeze(strip(iface_cpp)), {"init": "void htmInterface::init(size_t depth, size_t savedepth) { if (index_) delete index_; if (t_) delete t_; "
+                                              "index_ = new SpatialIndex(depth, savedepth); }"}, "htmInterface::init")
+    _need(squeeze(strip(htmc_src)), {"HTMC::init": "void HTMC::init(int depth) throw (const char *) { mDepth = depth; mHtmInterface.init(depth);"}, "HTMC::init")
+    _need(squeeze(strip(htmc_src)), {"lookup": "npy_int64 id = (npy_int64) mHtmInterface.lookupID(*raptr, *decptr); *idptr = id;"}, "HTMC::lookup_id")
+    g = strip(general_src)
+    m = re.findall(r"const float64 gPi = ([^ ;]+) ?;", g)
+    if len(m) != 1:
+        raise TranslateError("expected exactly one definition of gPi")
+    gpi = _decimal(m[0], "gPi")
+    _need(squeeze(g), {"gPr": "const float64 gPr = gPi/180.0;"}, "gPr")
+    return {"save_depth": save, "gPi": gpi}
+
+
 def translate(impl_root):
     """impl_root = the tree under test (scratch build).  Returns the dict described above."""
     def rd(*p):
@@ -185,4 +240,7 @@ def translate(impl_root):
     out = cbincount(rd("esutil", "htm", "htmc.cc"))
     log_bins(rd("esutil", "htm", "htm.py"))
     out.update(id_by_point(rd("esutil", "htm", "htm_src", "SpatialIndex.cpp"), rd("esutil", "htm", "htm_src", "SpatialGeneral.h")))
+    src = lambda f: rd("esutil", "htm", "htm_src", f)
+    out.update(vector_ops(src("SpatialVector.cpp"), src("SpatialEdge.cpp"), src("SpatialIndex.cpp"), src("SpatialInterface.h"),
+                          src("SpatialInterface.cpp"), rd("esutil", "htm", "htmc.cc"), src("SpatialGeneral.h")))
     return out
